@@ -1607,6 +1607,18 @@ class Engine:
     def s_Return(self, node, st):
         if node.value is None:
             return [Out("return", st, VNONE)]
+        if isinstance(node.value, ast.List) and not node.value.elts and getattr(node.value, "_pyvc_kind", None) is None:
+            # `return []`: the element kind of the empty display is the one the contract of this function declares
+            # (an inlined callee has no contract of its own in force: any named case of its contract tells the kind)
+            cs = [getattr(self.frame, "contract", None)]
+            q = getattr(self.frame, "qual", None)
+            if q:
+                cs += [c for k, c in sorted(self.R.contracts.items()) if k == q or k.startswith(q + "#")]
+            for c in cs:
+                if c is not None and getattr(c, "returns", None) is not None and getattr(node.value, "_pyvc_kind", None) is None:
+                    for a in alts(c.returns):
+                        if a.tag == "list":
+                            node.value._pyvc_kind = a[1]
         return [Out("return", o.st, o.val) if o.tag == "ok" else o for o in self.eval(node.value, st)]
 
     def s_Break(self, node, st):
